@@ -10,6 +10,7 @@ file-history (predecessor file in the same process) perturbations, where stale p
 bookkeeping of the renderers shows.
 """
 import re
+import struct
 
 from .. import codefile, corpus, oracle
 from ..driver import chash
@@ -22,7 +23,8 @@ LEVEL = "exploration"
 VARIANTS = ("plain", "asan")
 EVAL_RUNS = True
 RULE = ("every golden program and generated programs (macros, repetitions, several segments, PHASE, padding, lines with "
-        "more code than one listing line) with -L -g MAP and one share format (-a/-c/-p), list radix from {16,16,16,10,8,2}, "
+        "more code than one listing line) with -L, one debug format (-g MAP 60%, NOICE 20%, ATMEL 20%: line entries of all three, "
+        "symbol values of MAP and NoICE, per-unit code words of the Atmel object file) and one share format (-a/-c/-p), list radix from {16,16,16,10,8,2}, "
         "x forced extra passes {0,1} x optional predecessor file in the same process. non-trivial = the run has >=1 "
         "multi-line code dump, >=1 PHASE or >=2 segments, or runs under a perturbed schedule/history; distinct by "
         "scenario content hash")
@@ -222,6 +224,45 @@ def share_int(txt, fmt):
     return None
 
 
+def parse_noice(noi):
+    """([(file, line, absolute address)], {symbol: value}) of a NoICE command file."""
+    entries, defs = [], {}
+    fil = start = None
+    for ln in (noi or b"").split(b"\n"):
+        w = ln.decode("latin1").split()
+        if not w:
+            continue
+        try:
+            if w[0] == "FILE" and len(w) >= 3:
+                fil, start = w[1], int(w[2], 16)
+            elif w[0] == "LINE" and len(w) >= 3 and fil is not None:
+                entries.append((fil, int(w[1]), start + int(w[2], 16)))
+            elif w[0] == "ENDFILE":
+                fil = None
+            elif w[0] == "DEFINE" and len(w) >= 3:
+                defs[w[1]] = int(w[2], 16)
+        except ValueError:
+            entries.append((fil, -1, -1))  # unreadable entry: matches nothing
+    return entries, defs
+
+
+def parse_atmel(obj):
+    """[(address, code word, file index, line, inmacro)] and file names of an Atmel object file, None if malformed."""
+    if obj is None or len(obj) < 26:
+        return None
+    fnpos, recpos = struct.unpack(">II", obj[:8])
+    if obj[8] != 9 or obj[10:26] != b"AVR Object File\0" or recpos != 26 or fnpos < recpos or fnpos > len(obj) or (fnpos - recpos) % 9:
+        return None
+    recs = []
+    for o in range(recpos, fnpos, 9):
+        a = int.from_bytes(obj[o:o + 3], "big")
+        code, = struct.unpack(">H", obj[o + 3:o + 5])
+        line, = struct.unpack(">H", obj[o + 6:o + 8])
+        recs.append((a, code, obj[o + 5], line, obj[o + 8]))
+    names = obj[fnpos:].split(b"\0")
+    return recs, [n.decode("latin1") for n in names if n]
+
+
 def check_run(r, name, outdir, radix, sharefmt, files_trace, acc, label):
     """All four rules for one assembled file of a run.  files_trace: the F section of the trace for it."""
     vs = []
@@ -316,6 +357,60 @@ def check_run(r, name, outdir, radix, sharefmt, files_trace, acc, label):
                                % (label, x["line"], len(x["raw"]), x["pc"] + x["phase"], [r.decode("latin1").strip() for r in rows][:3])))
                     break
                 acc["probes"]["listed_line_blank_code_column"] = acc["probes"].get("listed_line_blank_code_column", 0) + 1
+    # rule 3n: NoICE line entries and symbol definitions (code segment only)
+    noi = r.files.get("%s/%s.noi" % (outdir, name))
+    if noi is not None:
+        entries, defs = parse_noice(noi)
+        idx = {}
+        for x in final:
+            if x["seg"] == 1:
+                idx.setdefault((x["line"], x["pc"]), []).append(x["file"])
+        for fil, line, addr in entries:
+            acc["probes"]["noice_entries_checked"] = acc["probes"].get("noice_entries_checked", 0) + 1
+            cands = idx.get((line, addr))
+            if not cands or not any(c == fil or c.endswith("/" + fil) or fil.endswith("/" + c) for c in cands):
+                vs.append(("C19/noice-line-entry", "%s: NoICE file says line %d of %s starts at %X, no final-pass emission record in CODE matches" % (label, line, fil, addr)))
+                break
+        lsyms = parse_listing_symbols(lst, radix) if lst is not None else {}
+        for nm, dv in defs.items():
+            if nm in lsyms and lsyms[nm][1] == "C":
+                acc["probes"]["symbols_listing_vs_noice"] = acc["probes"].get("symbols_listing_vs_noice", 0) + 1
+                lv = to_radix(lsyms[nm][0], radix)
+                if lv is not None and (lv & 0xFFFFFFFFFFFFFFFF) != dv:
+                    vs.append(("C19/symbol-listing-vs-noice", "%s: symbol %s is %s in the listing, %X in the NoICE file" % (label, nm, lsyms[nm][0], dv)))
+                    break
+        if entries:
+            nontrivial = True
+    # rule 3a: Atmel object file: one record per addressable unit of CODE, holding that unit's value
+    obj = r.files.get("%s/%s.obj" % (outdir, name))
+    if obj is not None:
+        pa = parse_atmel(obj)
+        if pa is None:
+            vs.append(("C19/atmel-object-malformed", "%s: header / record area of the Atmel object file is inconsistent (%d bytes)" % (label, len(obj))))
+        else:
+            units = {}
+            for x in final:
+                if x["seg"] != 1:
+                    continue
+                g = x["gran"]
+                n = x["clen"]
+                for z in range(max(n, 1)):
+                    if x["dp"] or not x["raw"] or n == 0:
+                        v = 0
+                    else:
+                        v = int.from_bytes(x["raw"][z * g:z * g + g], "little") & 0xFFFF
+                    units.setdefault((x["pc"] + z, x["line"] & 0xFFFF), set()).add(v)
+            for a, code, fi, line, inmac in pa[0]:
+                acc["probes"]["atmel_records_checked"] = acc["probes"].get("atmel_records_checked", 0) + 1
+                have = units.get((a, line))
+                if have is None:
+                    vs.append(("C19/atmel-line-record", "%s: Atmel record says line %d emitted the unit at %X, no final-pass emission record matches" % (label, line, a)))
+                    break
+                if code not in have:
+                    vs.append(("C19/atmel-code-word", "%s: Atmel record for %X (line %d) holds %04X, the statement emitted %s there" % (label, a, line, code, sorted("%04X" % h for h in have))))
+                    break
+            if pa[0]:
+                nontrivial = True
     # rule 3: MAP line info
     if mp is not None:
         entries, msyms = parse_map(mp)
@@ -387,7 +482,8 @@ def build_scenario(rng, main_name, disk, flags, pred=None):
         d.update(pred["disk"])
         files.append(pred["main"])
     files.append("/w/t/%s.asm" % main_name)
-    argv = list(flags) + ["-q", "-i", "/sim/inc", "-i", "/w/t", "-L", "-g", "MAP", sharefmt]
+    dbg = rng.choice(["MAP"] * 6 + ["NOICE", "NOICE", "ATMEL", "ATMEL"])
+    argv = list(flags) + ["-q", "-i", "/sim/inc", "-i", "/w/t", "-L", "-g", dbg, sharefmt]
     if radix != 16:
         argv += ["-listradix", str(radix)]
     argv += files
@@ -440,7 +536,7 @@ def run_case(sim, case):
                 pred = {"disk": pd, "main": "/w/p/%s.asm" % pt.name}
         sc, radix, sharefmt, extra = build_scenario(rng, name, disk, flags, pred)
         if big:
-            sc["argv"] = [a for a in sc["argv"] if a not in ("-g", "MAP")]
+            sc["argv"] = [a for a in sc["argv"] if a not in ("-g", "MAP", "NOICE", "ATMEL")]
         variant = "asan" if rng.chance(0.05) else "plain"
         vs, nt, r = run_one(sim, sc, name, radix, sharefmt, acc, name, variant)
         c = {"kind": "explicit", "scenario": scenario_to_json(sc), "name": name, "radix": radix, "sharefmt": sharefmt, "variant": variant}
